@@ -8,6 +8,10 @@ def _x():
     return np.array([[0, 1], [1, 0]], dtype=complex)
 
 
+def _z():
+    return np.array([[1, 0], [0, -1]], dtype=complex)
+
+
 def _swap():
     return np.array([[1, 0, 0, 0], [0, 0, 1, 0], [0, 1, 0, 0], [0, 0, 0, 1]], dtype=complex)
 
@@ -18,4 +22,6 @@ class jaqal_gates:
         "measure_all": BusyGateDefinition("measure_all"),
         "GP": GateDefinition("GP", [Parameter("a", ParamType.QUBIT), Parameter("b", ParamType.QUBIT)], ideal_unitary=_swap),
         "XB": GateDefinition("XB", [Parameter("a", ParamType.QUBIT)], ideal_unitary=_x),
+        # SP has the SAME signature in both modules but another unitary (X in moda, Z in modb)
+        "SP": GateDefinition("SP", [Parameter("a", ParamType.QUBIT)], ideal_unitary=_z),
     }
